@@ -372,3 +372,21 @@ Proof.
     + apply clamp_two_halves.
     + unfold is_perm. apply Permutation_refl.
 Qed.
+
+(* every (point, neighbour position) combination is realisable as an updated pair: for the j-th selected point
+   and every neighbour position m < k some admissible stream of draws makes pair j = (perm[j], nbrs[perm[j]][m]) *)
+Lemma local_any_neighbour_pair nbrs k nu perm j m :
+  j < nu -> m < k ->
+  exists us, us_ok nu us /\
+             nth j (local_pairs nbrs k nu us perm) (0, 0) =
+             (nth j perm 0, nth m (nth (nth j perm 0) nbrs []) 0).
+Proof.
+  intros Hj Hm. destruct (draw_onto k m Hm) as [u [H0 [H1 Hd]]].
+  exists (repeat u nu). split.
+  - split; [rewrite repeat_length; lia|]. apply Forall_forall. intros x Hx.
+    apply repeat_spec in Hx. subst x. split; assumption.
+  - unfold local_pairs. rewrite nth_map_seq by exact Hj.
+    assert (E : nth j (repeat u nu) 0%Q = u).
+    { apply (repeat_spec nu u). apply nth_In. rewrite repeat_length. exact Hj. }
+    rewrite E, Hd, Nat2Z.id. reflexivity.
+Qed.
